@@ -578,13 +578,13 @@ Section Refine.
 
   (* q = self.call(goal); results = [get_value(template) for r in q]      (findall/3) *)
   Definition collect_all (t : term) (xs : list st) (e : fr) : fr :=
-    fold_left (fun e x => collect t (nxt x) e (sto x)) xs e.
+    fold_left (fun e x => fcollect t (nxt x) e (sto x)) xs e.
 
   Lemma findall_loop d t k g0 h0 : wf h0 -> forall xs_it err e hcur itcur ys rf,
     ISpec d h0 (kn k e) (xs_it, err) hcur itcur ->
     (if err then ys = [] /\ rf = RRaise
      else FSpec (S d) g0 ys rf (fun n => mcont n d h0 k (collect_all t xs_it e))) ->
-    FSpec (S d) g0 ys rf (fun n => mloop n d hcur itcur (CAssign (collect t)) k e).
+    FSpec (S d) g0 ys rf (fun n => mloop n d hcur itcur (CAssign (fcollect t)) k e).
   Proof.
     intros W0. induction xs_it as [|x r IH]; intros err e hcur itcur ys rf [HF HI] HK.
     - cbn [fst snd FSpec] in HF. destruct HF as [N [hf [it' HF]]].
@@ -599,27 +599,27 @@ Section Refine.
       eapply FSpec_ev; [exists N, 3, 0; intros n L; cbn [Nat.add]; rewrite loop_S, (HF (S (S n))) by lia;
                          rewrite exec_S, cont_S; reflexivity|].
       rewrite kn_loop, Gn.
-      apply (IH err (collect t (nxt x) e (sto x)) (sto x) it' ys rf).
+      apply (IH err (fcollect t (nxt x) e (sto x)) (sto x) it' ys rf).
       + split; [|exact I']. rewrite (kn_nxt k _ e) by reflexivity. exact HR.
       + exact HK.
   Qed.
 
-  Lemma collect_all_spec t xs : forall e,
-    f_acc (collect_all t xs e) = f_acc e ++ map (fun x => den_fast (sto x) t) xs /\
-    f_aux (collect_all t xs e) = fold_left (fun m x => Nat.max m (nxt x)) xs (f_aux e) /\
+  Lemma collect_all_spec t xs : forall e es b,
+    Machine.collect (f_nxt e) (f_nxt e + f_aux e) t xs = (es, b) ->
+    f_acc (collect_all t xs e) = f_acc e ++ es /\
+    f_nxt e + f_aux (collect_all t xs e) = b /\
     f_nxt (collect_all t xs e) = f_nxt e.
   Proof.
-    induction xs as [|x r IH]; intros e; cbn [collect_all fold_left map].
-    - rewrite app_nil_r. auto.
-    - destruct (IH (collect t (nxt x) e (sto x))) as [A [B C]]. fold (collect_all t r (collect t (nxt x) e (sto x))).
-      rewrite A, B, C. cbn [collect f_acc f_aux f_nxt]. rewrite <- app_assoc, dfast_eq, <- den_fast_eq. auto.
-  Qed.
-
-  Lemma fold_max_from (xs : list st) : forall a,
-    fold_left (fun m x => Nat.max m (nxt x)) xs a = Nat.max a (fold_left (fun m x => Nat.max m (nxt x)) xs 0).
-  Proof.
-    induction xs as [|x r IH]; intros a; cbn [fold_left]; [lia|].
-    rewrite (IH (Nat.max a (nxt x))), (IH (Nat.max 0 (nxt x))). lia.
+    induction xs as [|x r IH]; intros e es b H; cbn [collect_all fold_left Machine.collect] in *.
+    - inversion H; subst. rewrite app_nil_r. auto.
+    - fold (collect_all t r (fcollect t (nxt x) e (sto x))).
+      destruct (Machine.collect (f_nxt e) (f_nxt e + f_aux e + (nxt x - f_nxt e)) t r) as [es' b'] eqn:E.
+      inversion H; subst es b.
+      destruct (IH (fcollect t (nxt x) e (sto x)) es' b') as [A [B C]].
+      { cbn [fcollect f_nxt f_aux]. rewrite Nat.add_assoc. exact E. }
+      rewrite A, C. cbn [fcollect f_acc f_aux f_nxt] in *. rewrite <- app_assoc. cbn [app].
+      replace (f_nxt e + f_aux e - f_nxt e) with (f_aux e) by lia.
+      rewrite dfast_eq, <- den_fast_eq. auto.
   Qed.
 
   (* \= : the frame of builtin_neq is a function frame for neq_ir *)
@@ -675,15 +675,16 @@ Section Refine.
       eapply FSpec_ev; [exists 0, 2, 0; intros n _; cbn [Nat.add]; rewrite exec_S, exec_S; reflexivity|].
       apply (findall_loop d t (KSeq _ KNil) g0 h W xs err (fr0 [] nx) h _ _ _ HI).
       destruct err; cbn [fst snd rend]; [auto|].
-      destruct (collect_all_spec t xs (fr0 [] nx)) as [A [B C]]. cbn [f_acc f_aux f_nxt fr0 app] in A, B, C.
+      destruct (Machine.collect (nxt (mkst h nx)) (nxt (mkst h nx)) t xs) as [es b] eqn:EC. cbn [nxt mkst] in EC.
+      destruct (collect_all_spec t xs (fr0 [] nx) es b) as [A [B C]].
+      { cbn [f_nxt f_aux fr0]. rewrite Nat.add_0_r. exact EC. }
+      cbn [f_acc f_aux f_nxt fr0 app] in A, B, C.
       eapply FSpec_ev; [exists 0, 4, 0; intros n _; cbn [Nat.add]; rewrite cont_S, exec_S, exec_S, cont_S; reflexivity|].
       cbn [knxt].
-      set (ef := collected (f_nxt (collect_all t xs (fr0 [] nx))) (collect_all t xs (fr0 [] nx)) h).
-      assert (En: f_nxt ef = max_nxt (mkst h nx) xs).
-      { unfold ef, collected, max_nxt. cbn [f_nxt nxt mkst]. rewrite C, B. symmetry. apply fold_max_from. }
-      assert (Ea: f_acc ef = map (fun x => den_fast (sto x) t) xs) by (unfold ef, collected; cbn [f_acc]; exact A).
-      destruct (unify_st {| sto := sto (mkst h nx); nxt := max_nxt (mkst h nx) xs |} l
-                  (mk_list (map (fun x => den_fast (sto x) t) xs))) as [ys e2] eqn:U2. cbn [fst snd].
+      set (ef := fcollected (f_nxt (collect_all t xs (fr0 [] nx))) (collect_all t xs (fr0 [] nx)) h).
+      assert (En: f_nxt ef = b) by (unfold ef, fcollected; cbn [f_nxt]; rewrite C; exact B).
+      assert (Ea: f_acc ef = es) by (unfold ef, fcollected; cbn [f_acc]; exact A).
+      destruct (unify_st {| sto := sto (mkst h nx); nxt := b |} l (mk_list es)) as [ys e2] eqn:U2. cbn [fst snd].
       apply yield_for; auto. cbn [mkiter]. rewrite Ea, En, <- U2. apply ispec_unify. exact W. }
     apply skip_spec.
   Qed.
@@ -738,13 +739,13 @@ Section Refine.
       f_equal. unfold clear_acc, fr0. destruct e; cbn in *. subst. reflexivity.
     - cbn [fact_answers sto nxt mkst] in HA. cbn [facts_code].
       set (e1 := {| f_env := f_env e; f_nxt := f_nxt e + m; f_fl := f_fl e;
-                    f_acc := map (shift_term (f_nxt e)) vals; f_aux := f_aux e |}).
+                    f_acc := map (fact_shift (f_nxt e)) vals; f_aux := f_aux e |}).
       set (K := (KSeq (facts_code r args) (KSeq c KNil) : mkont)).
       eapply FSpec_ev; [exists 0, 4, 0; intros n _; cbn [Nat.add]; rewrite exec_S, exec_S, cont_S, exec_S; reflexivity|].
       cbn [knxt]. fold e1. fold K.
       pose proof (ispec_arrays d h (f_nxt e1) args (f_acc e1) W) as HI.
       unfold arrays_st in HI. cbn [f_nxt f_acc e1] in HI.
-      destruct (unify_arrays_fast ufuel h args (map (shift_term (f_nxt e)) vals)) as [s'| | |] eqn:U.
+      destruct (unify_arrays_fast ufuel h args (map (fact_shift (f_nxt e)) vals)) as [s'| | |] eqn:U.
       + destruct (fact_answers r args {| sto := h; nxt := f_nxt e + m |}) as [[ys1 e1'] nx1] eqn:R1.
         inversion HA; subst fa fe nx'.
         change (({| sto := s'; nxt := f_nxt e + m |} :: ys1) ++ ys) with
